@@ -12,6 +12,7 @@ import (
 	"os"
 	"runtime"
 	"runtime/debug"
+	"sort"
 	"strings"
 	"testing"
 	"time"
@@ -419,8 +420,37 @@ var jsonTemplates = []string{
 	`{"reason":"x","code":"y"}`, `{"mappings":[{"mapping_id":"x"}]}`, `{"a":{"a":{"a":{"a":{"a":{"a":{"a":{"a":{}}}}}}}}}`,
 }
 
+// field names of the request bodies the command handlers decode (json tags of internal/packet,
+// internal/command, internal/app/server) and a SMALL value pool, so that related fields often carry
+// equal / nested / differently spelled values (subdomain == base_domain, a port out of range, ...)
+var bodyFields = strings.Fields(`mapping_id client_id tunnel_id id type node_id secret_key protocol version user_id target_client_id
+	target_address target_url name bytes_sent bytes_received target_port target_host subdomain port method listen_address headers code
+	base_domain auth_code address url token reason payload mappings data config source_port request_id query_id mapping_ttl
+	listen_client_id domain conn_id body bandwidth_limit activation_ttl ttl timeout status_code resume_token query qtype raw_query
+	description full_domain connection_type challenge_response mapping_name listen_port dns_server enable_compression enable_encryption`)
+
+var bodyValues = []string{`""`, `"a"`, `"tunnox.net"`, `" TUNNOX.NET "`, `".tunnox.net"`, `"x.tunnox.net"`, `"xtunnox.net"`, `"tunnel.test.local"`,
+	`"http://127.0.0.1:80"`, `"http://"`, `"tcp://1.2.3.4:5"`, `"0.0.0.0:1"`, `"127.0.0.1"`, `"[::1]:80"`, `":"`, `"hdm_1"`, `"pmap_x"`, `"abc-def-ghi"`,
+	`"tcp"`, `"udp"`, `"socks5"`, `"A"`, `"AAAA"`, `0`, `1`, `-1`, `65535`, `65536`, `4294967296`, `9223372036854775807`, `1.5`, `true`, `false`, `null`, `[]`, `{}`, `["a"]`, `{"a":"a"}`}
+
+func genStructured(t *rapid.T) string {
+	n := rapid.IntRange(1, 6).Draw(t, "nfields")
+	var sb strings.Builder
+	sb.WriteString("{")
+	for i := 0; i < n; i++ {
+		if i > 0 {
+			sb.WriteString(",")
+		}
+		sb.WriteString(`"` + rapid.SampledFrom(bodyFields).Draw(t, "field") + `":` + rapid.SampledFrom(bodyValues).Draw(t, "value"))
+	}
+	sb.WriteString("}")
+	return sb.String()
+}
+
 func genJSONish(t *rapid.T) string {
-	switch rapid.IntRange(0, 5).Draw(t, "bodyKind") {
+	switch rapid.IntRange(0, 8).Draw(t, "bodyKind") {
+	case 6, 7, 8:
+		return genStructured(t)
 	case 0:
 		return rapid.SampledFrom(jsonTemplates).Draw(t, "tmpl")
 	case 1:
@@ -500,6 +530,82 @@ func TestDispatcherMatrix(t *testing.T) {
 	vkit.Exhaustive("packet type byte x command type x 4 bodies on a fresh unauthenticated connection", vkit.Thorough())
 }
 
+// TestDispatcherRelations: handlers that relate two fields of a body (a sub-domain inside a base
+// domain, a port inside an address, ...) are reached only by bodies whose fields are RELATED. For every
+// command type the handlers know, every template body and every ordered pair of its fields, field i
+// is given field j's value (as is, and upper-cased with surrounding blanks), plus each value of the
+// pool for every single field.
+func TestDispatcherRelations(t *testing.T) {
+	cmds := []byte{10, 11, 13, 35, 50, 51, 70, 71, 72, 73, 74, 75, 76, 80, 81, 82, 83, 84, 85, 86, 87, 90, 91, 92, 93, 94, 95, 96, 100, 101, 102}
+	if vkit.Thorough() {
+		cmds = nil
+		for c := 0; c < 256; c++ {
+			cmds = append(cmds, byte(c))
+		}
+	}
+	i := 0
+	for _, tmpl := range jsonTemplates {
+		var obj map[string]json.RawMessage
+		if json.Unmarshal([]byte(tmpl), &obj) != nil || len(obj) == 0 {
+			continue
+		}
+		var keys []string
+		for k := range obj {
+			keys = append(keys, k)
+		}
+		sort.Strings(keys)
+		build := func(over map[string]string) string {
+			var sb strings.Builder
+			sb.WriteString("{")
+			for n, k := range keys {
+				if n > 0 {
+					sb.WriteString(",")
+				}
+				v := string(obj[k])
+				if o, ok := over[k]; ok {
+					v = o
+				}
+				sb.WriteString(`"` + k + `":` + v)
+			}
+			sb.WriteString("}")
+			return sb.String()
+		}
+		var bodies []string
+		for _, a := range keys {
+			for _, b := range keys {
+				if a == b {
+					continue
+				}
+				bodies = append(bodies, build(map[string]string{a: string(obj[b])}))
+				var sv string
+				if json.Unmarshal(obj[b], &sv) == nil {
+					up, _ := json.Marshal(" " + strings.ToUpper(sv) + " ")
+					bodies = append(bodies, build(map[string]string{a: string(up)}))
+				}
+			}
+			if vkit.Thorough() {
+				for _, v := range bodyValues {
+					bodies = append(bodies, build(map[string]string{a: v}))
+				}
+			}
+		}
+		for _, cmd := range cmds {
+			for _, b := range bodies {
+				i++
+				if vkit.Mine(i) {
+					dispatchOracle(t, DispCase{Type: 0x10, HasCmd: true, CmdType: cmd, Body: b})
+				}
+			}
+		}
+	}
+	if srvPool != nil {
+		srvPool.Close()
+		srvPool = nil
+	}
+	vkit.AddExtra("relation_bodies_dispatched", int64(i))
+	vkit.Exhaustive("command type x template body x (field i := field j)", true)
+}
+
 // ---------------------------------------------------------------------------
 // native fuzz targets (thorough tier)
 
@@ -550,6 +656,20 @@ func TestReplay(t *testing.T) {
 		t.Fatal(err)
 	}
 	b, _ := json.Marshal(raw)
+	if _, isLayer := raw["layers"]; isLayer {
+		var c LayerCase
+		json.Unmarshal(b, &c)
+		layerOracle(t, c)
+		return
+	}
+	if _, isWS := raw["ws_msgs"]; isWS {
+		var c WSMsgCase
+		json.Unmarshal(b, &c)
+		if key, detail := runWSMsgs(t, c); key != "" {
+			vkit.Violation(t, key, detail, c)
+		}
+		return
+	}
 	if _, isDec := raw["kind"]; isDec {
 		var c DecCase
 		json.Unmarshal(b, &c)
